@@ -756,3 +756,11 @@ mutant("C05-M31", "C05", "R05l", "sources take precedence over duration groups",
 mutant("C06-M40", "C06", "R06k", "interaction rows built from the 'to' population type", M, "Model.build", 'from_pops = [x.name for x in self.pops if x.type == self.framework.interactions.at[name, "from population type"]]', 'from_pops = [x.name for x in self.pops if x.type == self.framework.interactions.at[name, "to population type"]]')
 mutant("C06-M41", "C06", "R06k", "interaction value stored transposed", M, "Model.build", "self.interactions[name][from_pops.index(from_pop), to_pops.index(to_pop), :]", "self.interactions[name][to_pops.index(to_pop), from_pops.index(from_pop), :]")
 mutant("C01-M29", "C01", "R06k", "transfers also drain junctions", M, "Model.build", "if not (isinstance(src, SourceCompartment) or isinstance(src, SinkCompartment) or isinstance(src, JunctionCompartment)):", "if not (isinstance(src, SourceCompartment) or isinstance(src, SinkCompartment)):")
+
+# ---- round 6, second batch
+mutant("C08-M23", "C08", "R08c", "parsed functions cached in a module-level dict across copies", M, "Parameter.unlink", "        self._fcn = None", "        _exec_cache[self.id] = self._fcn\n        self._fcn = None", edits=[dict(file=M, old="class BadInitialization(Exception):", new="_exec_cache = {}\n\n\nclass BadInitialization(Exception):"), dict(file=M, func="Parameter.unlink", old="        self._fcn = None", new="        _exec_cache[self.id] = self._fcn\n        self._fcn = None")])
+mutant("C09-M23", "C09", "R09c", "baseline times selected with isclose", "atomica/scenarios.py", "ParameterScenario.get_parset", "vals = par.interpolate(tvec[tvec < scen_start], pop_label)", "vals = par.interpolate(tvec[(tvec < scen_start) & ~np.isclose(tvec, scen_start)], pop_label)")
+mutant("C10-M27", "C10", "R10c", "early exit for populations without databook quantities precedes the saved state", M, "Population.initialize_compartments", "        if not self.comps:", "        if not self.comps or not len(framework.comps.index[framework.comps[\"setup weight\"] > 0]):")
+mutant("C13-M26", "C13", "R16k", "covouts keys unpacked as (population, parameter)", M, "Population.build", "(progset is not None and (par.name, self.name) in progset.covouts)", "(progset is not None and par.name in {b for a, b in progset.covouts.keys() if a == self.name})")
+mutant("C12-M31", "C12", "R16a", "reconciliation refreshes only covouts whose outcomes changed", RC, "_update_progset", "    for covout in progset.covouts.values():\n        covout.update_outcomes()", "    pass")
+mutant("C14-M36", "C14", "R15f", "initial value written back to the adjustable while computing bounds", OP, "Optimization.get_initialization", "                bounds = adjustable.get_hard_bounds(x0[ptr])", "                adjustable.initial_value = x0[ptr]\n                bounds = adjustable.get_hard_bounds(x0[ptr])")
